@@ -24,6 +24,8 @@ impl<'a> CycleDetector<'a> {
         self.path_indices.insert(from, path.len());
 
         for (name, pos) in &self.spreads[from] {
+            #[cfg(async_graphql_verif)]
+            crate::verif_hooks::RULE_STEPS[1].fetch_add(1, std::sync::atomic::Ordering::Relaxed);
             let index = self.path_indices.get(name).cloned();
 
             if let Some(index) = index {
